@@ -14,9 +14,16 @@ c2) calendar completeness: TemporalCalendarIndex::add_zone_range registers a zon
    running-timestamp <= range-end loop conditions (no size- or constant-based exemption; the equality lookup trusts an hour bucket when one exists).
 c3) SuRF probe completeness: ZoneSurfFilter::zones_overlapping_{ge,le} probe every zone entry — the loop over self.entries has no early exit.
 Noted, not armed: index-build errors in ZoneWriter::write_all are logged while the catalog is written from the plan; temporal pruner skips a zone whose temporal index fails to load.
+c4) the SuRF bound searches (find_first_key_geq / find_last_key_leq) resume, at a dead end, from a fork remembered while following equal edges. Whatever holds those forks (a stack, or one slot for
+    the deepest fork) is never CLEARED on the way down: inside the descent loop it is changed only by adding to it (push / overwrite with Some(..)) - an assignment that can store None when the
+    current node has no sibling forgets the earlier fork, and the search then reports "no key >= bound" for a zone that holds one (the zone is ruled out).
+    The remembered forks are found structurally: they are what the branch guarding the `stats.backtracks += 1` site tests.
+c5) producer / consumer agreement on the backtrack frames: if a frame (node, s, e, chosen, path_len) is pushed only under a condition ("skip frames that could never be used"), that condition,
+    written over the frame's own fields, must be the condition under which the dead-end code uses a popped frame (geq: chosen + 1 < e; leq: chosen > s). A push guarded by the mirror function's
+    condition drops exactly the frames the search needs.
 """
-FLOOR = 8
-REQUIRED = ["C08.a1", "C08.a2", "C08.a3", "C08.a4", "C08.b", "C08.c1", "C08.c2", "C08.c3"]
+FLOOR = 10
+REQUIRED = ["C08.a1", "C08.a2", "C08.a3", "C08.a4", "C08.b", "C08.c1", "C08.c2", "C08.c3", "C08.c4", "C08.c5"]
 
 
 def family(F, b):
@@ -248,3 +255,169 @@ def run(ctx):
 
     ctx.note("ZoneWriter::write_all logs index-build errors and writes the catalog from the plan (listed-but-missing index); not armed: needs a build fault to manifest")
     ctx.note("TemporalPruner drops a zone whose per-zone temporal index fails to load, and returns Some(empty) when the timestamp calendar is missing; not armed (fault clause)")
+
+    def c4(inst):
+        bad = []
+        for fn in ("find_first_key_geq_with_stats", "find_last_key_leq_with_stats"):
+            b = F.fn("SurfQuery::" + fn)
+            # backtrack sites: stores into the `.backtracks` counter
+            sites = [i for i in sorted(b.live_blocks()) for st in b.blocks[i]["s"] if st.get("a") and st["a"][-1:] == [".backtracks"]]
+            if not sites:
+                raise AnchorMissing("stats.backtracks += 1 in %s" % fn)
+            # the memory: locals the guarding switches of those sites test (through pop / take / discriminant)
+            mem = set()
+            for i in sorted(b.live_blocks()):
+                if b.blocks[i]["t"]["t"] != "switch":
+                    continue
+                si = b.switch_info(i)
+                if not si or si["kind"] != "enum":
+                    continue
+                tgt = [t for v_, t in si["edges"].items() if v_ in ("Some",) and t is not None]
+                if not any(b.dominates_edge((i, t), x) for t in tgt for x in sites):
+                    continue
+                pl = si.get("place")
+                if pl:
+                    for l in wide_all(b, pl, depth=6, partial=False):
+                        if re.search(r"Vec<|Option<|SmallVec|VecDeque", b.local_ty(l)) and b.local_name(l):
+                            mem.add(l)
+            if not mem:
+                raise AnchorMissing("the remembered forks tested before a backtrack in %s" % fn)
+            # loop blocks: those that can reach themselves
+            def cyc(bb_):
+                return bb_ in b.live_blocks() and any(bb_ in b.reach(s2[0]) for s2 in b.succ(bb_))
+            # memory lives across iterations: it is initialised before the loop (a per-iteration scratch Option is not a memory)
+            mem = {l for l in mem if any(not cyc(bb_) for (bb_, j_, dpl_, rv_) in b.defs().get(l, []))}
+            if not mem:
+                raise AnchorMissing("a fork memory initialised before the descent loop in %s" % fn)
+            for l in sorted(mem):
+                for (bb, j, dpl, rv) in b.defs().get(l, []):
+                    if j == -1 or len(dpl) != 1:
+                        continue
+                    in_cycle = cyc(bb)
+                    if not in_cycle:
+                        continue
+                    L = b.origins(rv["o"]) if rv.get("r") == "use" else ({("agg", "%s::%s" % (rv.get("adt"), rv.get("var")), bb, ())} if rv.get("r") == "agg" else {("unknown", rv.get("r"), ())})
+                    self_dep = l in (wide_all(b, rv["o"], partial=False) if rv.get("r") == "use" else set())
+                    only_some = all(x[0] == "agg" and str(x[1]).endswith("Option::Some") for x in L)
+                    inst.sites.append("%s: `%s` re-assigned in the descent loop @ %s from %s" % (fn, b.local_name(l), sp(b, bb), fmt_leaves(L)))
+                    if not self_dep and not only_some:
+                        bad.append(("fork-memory-cleared:%s" % fn, "%s overwrites the remembered fork `%s` inside the descent loop with a value that can be empty (%s): an earlier fork is forgotten and the bound search misses keys" % (fn, b.local_name(l), fmt_leaves(L)), None))
+            inst.sites.append("%s: backtrack memory %s" % (fn, sorted(b.local_name(l) + ": " + b.local_ty(l)[:40] for l in mem)))
+        return bad
+    ctx.run("C08.c4", "K8 GUARD", "SurfQuery::find_first_key_geq / find_last_key_leq", "forks remembered for backtracking are never cleared on the way down", c4)
+
+    def c5(inst):
+        bad = []
+        FLIP = {"Lt": "Gt", "Gt": "Lt", "Le": "Ge", "Ge": "Le"}
+
+        def norm(op, l, r):
+            # canonical orientation: smaller repr on the left
+            if repr(l) > repr(r):
+                return (FLIP[op], r, l)
+            return (op, l, r)
+        for fn in ("find_first_key_geq_with_stats", "find_last_key_leq_with_stats"):
+            b = F.fn("SurfQuery::" + fn)
+            sites = [i for i in sorted(b.live_blocks()) for st in b.blocks[i]["s"] if st.get("a") and st["a"][-1:] == [".backtracks"]]
+            if not sites:
+                raise AnchorMissing("stats.backtracks += 1 in %s" % fn)
+            pops = [c_ for c_ in b.find_calls(r"Vec::pop$") if any(b.can_reach(c_.bb, x) for x in sites)]
+            if not pops:
+                inst.sites.append("%s: no frame stack (single slot or other design): nothing to compare" % fn)
+                continue
+            pop = pops[0]
+            stack_locals = b._origin_locals(pop.args[0], depth=6)
+            pushes = [c_ for c_ in b.find_calls(r"Vec::push$") if b._origin_locals(c_.args[0], depth=6) & stack_locals]
+            if not pushes:
+                raise AnchorMissing("push onto the frame stack in %s" % fn)
+            # ---- use-site guards: comparisons over fields of the popped frame that dominate the backtrack site
+
+            def field_of_pop(opnd):
+                out = set()
+                for l in b.origins(opnd):
+                    if l[0] == "call" and l[2] == pop.bb:
+                        idx = [p_ for p_ in l[3] if re.match(r"^\.\d+$", p_)]
+                        if len(idx) >= 2:
+                            out.add(int(idx[-1][1:]))
+                return out
+
+            def expr(opnd, field_fn, depth=4):
+                if isinstance(opnd, dict) and "k" in opnd:
+                    m_ = re.match(r"^(-?\d+)_", opnd["k"])
+                    return ("c", int(m_.group(1)) if m_ else opnd["k"])
+                pl = opnd.get("m") or opnd.get("c")
+                f_ = field_fn(opnd)
+                if f_:
+                    return ("f", tuple(sorted(f_)))
+                if depth > 0 and pl:
+                    for (bb_, j_, dpl_, rv_) in b.defs().get(pl[0], []):
+                        if j_ != -1 and rv_.get("r") == "bin" and re.match(r"(Add|Sub)", rv_.get("op", "")):
+                            return (rv_["op"][:3], expr(rv_["a"], field_fn, depth - 1), expr(rv_["b"], field_fn, depth - 1))
+                        if j_ != -1 and rv_.get("r") == "use":
+                            return expr(rv_["o"], field_fn, depth - 1)
+                return ("?", fmt_leaves(b.origins(opnd)))
+            use_guards = set()
+            for i in sorted(b.live_blocks()):
+                if b.blocks[i]["t"]["t"] != "switch":
+                    continue
+                si = b.switch_info(i)
+                d = si.get("def") if si and si["kind"] == "bool" else None
+                if not d or d.get("r") != "bin" or d.get("op") not in FLIP:
+                    continue
+                if si["true"] is None or not any(b.dominates_edge((i, si["true"]), x) for x in sites):
+                    continue
+                l_, r_ = expr(d["a"], field_of_pop), expr(d["b"], field_of_pop)
+                if "f" in (l_[0], r_[0]) or any(isinstance(x, tuple) and x and x[0] == "f" for x in (l_[1:] + r_[1:]) if isinstance(x, tuple)):
+                    use_guards.add(norm(d["op"], l_, r_))
+            # ---- push-side guards
+            for pu in pushes:
+                tup = None
+                for l in b._origin_locals(pu.args[1], depth=4):
+                    for (bb_, j_, dpl_, rv_) in b.defs().get(l, []):
+                        if j_ != -1 and rv_.get("r") == "agg" and rv_.get("ak") == "tuple":
+                            tup = rv_
+                if tup is None:
+                    continue
+                def root(opnd, depth=6):
+                    """the user variable (named local) an operand is a plain copy of"""
+                    if isinstance(opnd, dict) and "k" in opnd:
+                        return None
+                    pl = opnd.get("m") or opnd.get("c") if isinstance(opnd, dict) else opnd
+                    while pl and depth > 0:
+                        l = pl[0]
+                        if b.local_name(l) and len(pl) == 1:
+                            return l
+                        ds = [d_ for d_ in b.defs().get(l, []) if d_[1] != -1 and len(d_[2]) == 1]
+                        if len(ds) != 1 or ds[0][3].get("r") != "use":
+                            return l if len(pl) == 1 else None
+                        o2 = ds[0][3]["o"]
+                        pl = o2.get("m") or o2.get("c")
+                        depth -= 1
+                    return None
+                fld_roots = [root(o_) for o_ in tup["o"]]
+
+                def field_of_push(opnd):
+                    r0 = root(opnd)
+                    return {k_ for k_, fr in enumerate(fld_roots) if fr is not None and fr == r0}
+                guards = []
+                for i in sorted(b.live_blocks()):
+                    if b.blocks[i]["t"]["t"] != "switch":
+                        continue
+                    si = b.switch_info(i)
+                    d = si.get("def") if si and si["kind"] == "bool" else None
+                    if not d or d.get("r") != "bin" or d.get("op") not in FLIP or si["true"] is None or si["false"] is None:
+                        continue
+                    if not b.dominates_edge((i, si["true"]), pu.bb):
+                        continue
+                    # specific to the push: the other outcome re-joins the same iteration after the push
+                    # specific to the push: the arm of the true edge holds nothing but the construction of the frame and the push itself
+                    arm = edge_dominated(b, (i, si["true"]))
+                    others = [c_ for c_ in calls_in(b, arm, r".") if c_.bb != pu.bb and not re.search(r"Vec::len$|slice::len$", c_.nname) and not TRANSPARENT.match(c_.nname)]
+                    if others:
+                        continue
+                    guards.append(norm(d["op"], expr(d["a"], field_of_push), expr(d["b"], field_of_push)))
+                inst.sites.append("%s: push @ %s guarded by %s; frames used under %s" % (fn, sp(b, pu.bb), guards or "nothing", sorted(use_guards)))
+                for g in guards:
+                    if g not in use_guards:
+                        bad.append(("push-guard-differs-from-use:%s" % fn, "%s pushes a backtrack frame only under %s but uses a popped frame under %s: frames the dead-end code needs are never recorded" % (fn, g, sorted(use_guards)), None))
+        return bad
+    ctx.run("C08.c5", "K11 SIB", "SurfQuery bound searches: frame push vs frame use", "a conditional push of a backtrack frame uses the condition the frame is later used under", c5)
